@@ -230,7 +230,7 @@ func (r *runner) runShard(k, nsh int) {
 		errText, _ := os.ReadFile(errp)
 		already := false
 		for _, x := range rs {
-			if x.Index == lastB && x.Verdict == "violated" {
+			if x.Index == lastB {
 				already = true
 			}
 		}
